@@ -35,13 +35,33 @@ package types
 //@   trusted
 //@   ensures true
 
+// Numbers: phase one writes an integer column value as its decimal text; ufb("decimal.is_integer", n)
+// says that the json.Number n is the decimal text of an integer of the int64 range, and
+// ufi("decimal.value", n) is that integer. Assumed of encoding/json (strconv underneath): Int64 reads
+// such a text exactly, Float64 reads it as the nearest double.
+//@ ext (encoding/json.Number).Int64
+//@   ensures ufb("decimal.is_integer", self) ==> result1 == nil && result0 == ufi("decimal.value", self)
+//@ ext (encoding/json.Number).Float64
+//@   ensures ufb("decimal.is_integer", self) ==> result1 == nil && result0 == tofloat(ufi("decimal.value", self))
+//@ func jsonInteger
+//@   prop C08
+//@   ensures an-integer-is-read-exactly: ufb("decimal.is_integer", n) ==> result1 == nil && result0 == ufi("decimal.value", n)
+//@   nopanic
+//@ func plainJSONValue
+//@   prop C08
+//@   ensures never-nil-for-a-value: value != nil ==> result != nil
+//@   ensures other-values-are-kept: !isT(value, json.Number) ==> result == value
+//@   nopanic
+
 //@ func (*ColumnImage).UnmarshalJSON
 //@   prop C08
+//@   macro written() := ufi("decimal.value", value.(json.Number))
 //@   requires c != nil
 //@   modifies heap.all
 //@   at return: assert text-is-kept-as-written: result == nil && localor("value", nil) != nil && isT(value, string) && (columnType == 1 || columnType == 12 || columnType == -1) ==> isT(c.Value, string) && c.Value.(string) == value.(string)
 //@   at return: assert integers-keep-their-width: result == nil && localor("value", nil) != nil && (columnType == 5 || columnType == 4 || columnType == -5) ==> (columnType == 5 && isT(c.Value, int16)) || isT(c.Value, int32) && columnType != -5 || isT(c.Value, int64) || isT(c.Value, float64)
-//@   at return: assert integers-are-read-back-exactly: result == nil && localor("value", nil) != nil && isT(value, float64) && ((columnType == -6 && -128 <= trunc(value.(float64)) && trunc(value.(float64)) <= 255) || (columnType == 5 && -32768 <= trunc(value.(float64)) && trunc(value.(float64)) <= 65535) || (columnType == 4 && -2147483648 <= trunc(value.(float64)) && trunc(value.(float64)) <= 4294967295)) ==> (isT(c.Value, int8) && c.Value.(int8) == trunc(value.(float64))) || (isT(c.Value, int16) && c.Value.(int16) == trunc(value.(float64))) || (isT(c.Value, int32) && c.Value.(int32) == trunc(value.(float64))) || (isT(c.Value, int64) && c.Value.(int64) == trunc(value.(float64)))
+//@   at return: assert integers-are-read-back-exactly: result == nil && localor("value", nil) != nil && isT(value, json.Number) && ufb("decimal.is_integer", value.(json.Number)) && ((columnType == -6 && -128 <= written() && written() <= 255) || (columnType == 5 && -32768 <= written() && written() <= 65535) || (columnType == 4 && -2147483648 <= written() && written() <= 4294967295) || columnType == -5) ==> (isT(c.Value, int8) && c.Value.(int8) == written()) || (isT(c.Value, int16) && c.Value.(int16) == written()) || (isT(c.Value, int32) && c.Value.(int32) == written()) || (isT(c.Value, int64) && c.Value.(int64) == written())
+//@   at return: assert a-written-integer-is-read-back-as-itself: result == nil && localor("value", nil) != nil && isT(value, json.Number) && ufb("decimal.is_integer", value.(json.Number)) && columnType == -5 ==> isT(c.Value, int64) && c.Value.(int64) == written()
 //@   at return: assert a-value-is-never-read-back-as-null: result == nil && localor("value", nil) != nil ==> c.Value != nil
 //@   at return: assert times-come-back-as-times: result == nil && localor("value", nil) != nil && (columnType == 91 || columnType == 92 || columnType == 93) ==> isT(c.Value, time.Time)
 //@   at return: assert binary-comes-back-as-bytes: result == nil && localor("value", nil) != nil && isT(value, string) && (columnType == -2 || columnType == -3 || columnType == -4) ==> isT(c.Value, []byte)
